@@ -19,3 +19,4 @@ pub mod sysw;
 pub mod env;
 pub mod rpc;
 pub mod authhq;
+pub mod query;
